@@ -27,6 +27,7 @@ RULES_DOC["R5"] = "unit_unmap_thread clears exactly one entry of the bucket on e
 RULES_DOC["X4"] = common.X4_DOC
 RULES_DOC["R6"] = "= C11.R4: ABT_thread_yield_to removes the target's unit from the target's own pool (the pool that holds the unit), before switching to it"
 RULES_DOC["R7"] = "the legacy batch-pop emulation writes handles only at indices below the caller's array length (the loop over the caller's array is bounded by `i < max`, never `<=`), and reports exactly the number it wrote"
+RULES_DOC["R12"] = "who-may-write census of ABTI_thread::p_pool: only the association helpers of abti_unit.h (which create, map and free user units together with the pool change) and the work-unit constructors store it"
 RULES_DOC["R11"] = "every ABTI_pool_push whose pool argument is a local copy of ABTI_thread::p_pool: no call that may write p_pool (request handling -> migration) lies between the copy and the push, so the unit handle and the pool it goes to belong together"
 RULES_DOC["R10"] = "who may call ABTI_unit_get_thread_from_builtin_unit: the built-in pool implementations and code governed by a test of ABTI_unit_is_builtin(); every pool-generic routine (the ABTI_pool_* wrappers that also serve user-defined pools) converts through ABTI_unit_get_thread"
 RULES_DOC["R9"] = "= C18.R6: a step that can fail because a user pool's create_unit fails (re-associating a unit on revive / migrate) runs before the descriptor is modified: on the error return the unit is still TERMINATED, mapped to its old unit and can be revived again"
@@ -469,6 +470,20 @@ def rule_R11(P, rep):
     rep.need(n >= 5, "only %d pool pushes found" % n)
 
 
+def rule_R12(P, rep):
+    """Who may store ABTI_thread::p_pool: the association helpers (they create / map / free the user unit together with the
+    pool change) and the constructors.  A direct store anywhere else re-associates the unit without telling the pools."""
+    ALLOWED = {"ABTI_thread_init_pool", "ABTI_thread_set_associated_pool", "ABTI_thread_unset_associated_pool",
+               "ABTI_unit_set_associated_pool", "ythread_create", "task_create", "ABTI_unit_init_builtin"}
+    ws = sorted(P.direct_writers("ABTI_thread", "p_pool"))
+    rep.need(len(ws) >= 4, "only %d functions store ABTI_thread::p_pool" % len(ws))
+    for k in ws:
+        name = k.split(":")[-1]
+        rep.ob("R12", "%s may store ABTI_thread::p_pool (association helper or constructor)" % name, name in ALLOWED,
+               "%s writes the pool of a unit directly: the unit handle, the unit map and the create_unit / free_unit calls "
+               "of user-defined pools are bypassed" % name, loc=k.rsplit(":", 1)[0], site="p_pool-writer/%s" % name)
+
+
 def run(P, rep, tier):
     common.rule_X8(P, rep)
     common.rule_X7(P, rep, records=('unit_to_thread',))
@@ -487,6 +502,7 @@ def run(P, rep, tier):
     common.borrow(rep, P, c18_commit.rule_R6, "R9")
     rule_R10(P, rep)
     rule_R11(P, rep)
+    rule_R12(P, rep)
     sub = type(rep)(rep.prop, rep.tier, rep.variant)
     C03.rule_R5(P, sub)
     for o in sub.obligations:
